@@ -142,6 +142,7 @@ def run(ctx):
                                        "joint": j % 3 == 2, "lengths": [40, 30][: 1 + (j % 3 == 2)], "data_seed": 1200 + j, "rng_seed": 1200 + j, "regimes": 2}
                                       for j, (N, W, kind) in enumerate([(2, 2, "sym"), (2, 2, "upper"), (1, 3, "asym"), (3, 1, "upper"), (2, 3, "asym")])], "c12lam")
         nstats = ntasks = after_repop = 0
+        nfits = 0
         for r in runs:
             ctx.count("run")
             cfg = r["cfg"]
@@ -193,6 +194,24 @@ def run(ctx):
                             probs.append("solver settings %r" % (t["kwargs"],))
                         for p in probs:
                             ctx.violation("monitor", "optimisation task of cluster %d in round %d: %s" % (k, e["round"], p), {"case": case})
+                    # ... and what each cluster carries after the optimise phase is the fit to ITS OWN covariance: the solver's answer
+                    # to the covariance this cluster's task was given (whatever order the pool finished the tasks in)
+                    if nfits < (60 if not ctx.thorough else 400):
+                        from fast_ticc import admm as _admm, matrix_compression as _mc
+                        for k, (c_before, c_after) in enumerate(zip(e["state"]["clusters"], nxt[0]["state"]["clusters"])):
+                            S_ = c_before["empirical_covariance"]
+                            if S_ is None or c_after["train_inverse"] is None or np.ndim(S_) != 2:
+                                continue
+                            nfits += 1
+                            with ctx.guard("admm_optimize_theta", {"cfg": cfg, "round": e["round"], "cluster": k}):
+                                own = _mc.reinflate_matrix(_admm.admm_optimize_theta(np.array(S_, dtype=float, copy=True), e2e.lam_of(cfg), W, N).theta)
+                                eps_ = cfg.get("eps", 0)
+                                if eps_:
+                                    own[(own < eps_) & (own > -eps_)] = 0
+                                if own.shape != np.shape(c_after["train_inverse"]) or not np.allclose(own, c_after["train_inverse"], rtol=1e-9, atol=1e-12):
+                                    ctx.violation("monitor", "round %d: after the optimise phase cluster %d does not carry the fit to its own covariance (max diff %.3g from the solver's answer to it)"
+                                                  % (e["round"], k, float(np.max(np.abs(own - c_after["train_inverse"]))) if own.shape == np.shape(c_after["train_inverse"]) else float("nan")),
+                                                  {"case": case})
                     if e["round"] > 0:
                         rep = [x for x in r["events"] if x["event"] == "phase" and x["round"] == e["round"] and x["phase"] == "repopulate"]
                         prv = [x for x in r["events"] if x["event"] == "phase" and x["round"] == e["round"] - 1 and x["phase"] == "relabel"]
